@@ -45,7 +45,7 @@ def build_axis(ax):
     raise AssertionError(form)
 
 
-def compare(ctx: Ctx, h, rows, weights, wkind, what=""):
+def compare(ctx: Ctx, h, rows, weights, wkind, what="", narrow_int=False):
     axes_pairs = [model.pairs_of(b) for b in h.bins]
     incl = [bool(b.includes_right_edge) for b in h.binnings]
     for ps in axes_pairs:
@@ -61,6 +61,10 @@ def compare(ctx: Ctx, h, rows, weights, wkind, what=""):
     mass2 = sum(float(F(w)) ** 2 for w in weights) if weights is not None else float(n)
     tol2 = 0.0 if exact else (n + 16) * 2.0 ** -52 * mass2 + (n + 1) * 2.3e-308
     exp_dtype = np.dtype("int64") if wkind in ("none", "int") else np.dtype("float64")
+    if narrow_int:
+        # integer weights of a narrow type: the histogram may keep that type or widen it, but stays integral
+        require(h.dtype.kind == "i", "dtype", f"{what}{h.dtype} for narrow integer weights")
+        exp_dtype = h.dtype
     require(h.dtype == exp_dtype == h.frequencies.dtype, "dtype", f"{what}{h.dtype}/{h.frequencies.dtype} vs {exp_dtype}")
     for idx in itertools.product(*[range(s) for s in shape]):
         want = m["cells"].get(idx, Fraction(0))
@@ -113,7 +117,7 @@ def check_explicit(case, ctx: Ctx):
     arr = np.array(rows, dtype=float).reshape(len(rows), d)
     warr = None
     if weights is not None:
-        warr = np.array(weights, dtype=np.int64 if wkind == "int" else np.float64)
+        warr = np.array(weights, dtype=(case.get("wdtype") or np.int64) if wkind == "int" else np.float64)
     entry = case["entry"]
     ctx.label("entry_" + entry, f"d{d}", f"w_{wkind}")
     kwargs = {}
@@ -166,7 +170,7 @@ def check_explicit(case, ctx: Ctx):
                 require(bool(h.binnings[i].includes_right_edge) == ax["incl"], "incl_flag_lost", f"axis {i}")
     expected_class = "Histogram2D" if d == 2 else "HistogramND"
     require(type(h).__name__ == expected_class, "class", type(h).__name__)
-    axes_pairs, incl, m = compare(ctx, h, rows, weights, wkind)
+    axes_pairs, incl, m = compare(ctx, h, rows, weights, wkind, narrow_int=bool(case.get("wdtype")))
     label_rows(ctx, axes_pairs, incl, rows, weights)
     shape = h.frequencies.shape
     if len(set(shape)) == len(shape):
@@ -230,6 +234,12 @@ def explicit_cases(draw, tier="quick"):
             rows.append([ax["pairs"][-1][1] + 3 * (ax["pairs"][-1][1] - ax["pairs"][0][0]) for ax in axes])
             weights = list(weights) + [-draw(st.integers(1, 40)) / 2]
         n = len(rows)
+    wdtype = None
+    if wkind == "int" and draw(st.integers(0, 2)) == 0:
+        # integer weights stored in a narrow type whose sums / squares leave that type
+        wdtype = draw(st.sampled_from(["int8", "uint8", "int16", "int32", "uint16"]))
+        heavy = {"int8": [100, 120, 7, 0], "uint8": [200, 255, 16, 0], "int16": [30000, 200, 3, 0], "int32": [100000, 2 ** 30, 5, 0], "uint16": [60000, 300, 1, 0]}[wdtype]
+        weights = [draw(st.sampled_from(heavy)) for _ in weights]
     entries = {2: ["h", "h", "h_lists", "h2", "h2", "h2_lists"], 3: ["h", "h_lists", "h3", "h3_cols", "h3_cols"], 4: ["h", "h_lists"]}[d]
     entry = draw(st.sampled_from(entries))
     if entry == "h3_cols" and n == 0:
@@ -239,7 +249,7 @@ def explicit_cases(draw, tier="quick"):
     perm = draw(st.permutations(list(range(d))))
     return {"axes": axes, "rows": rows, "wkind": wkind, "weights": weights, "entry": entry,
             "dropna": draw(st.sampled_from([True, True, True, False])), "perm": list(perm),
-            "wform": draw(st.sampled_from(["array", "list"]))}
+            "wform": "array" if wdtype else draw(st.sampled_from(["array", "list"])), "wdtype": wdtype}
 
 
 # ---------------------------------------------------------------------------------
